@@ -818,6 +818,13 @@ def contract_call(ex, st, contract, args, kwargs, e):
             kwargs[pn] = mk_ref(ctx.fresh("default_" + pn), contract.args[pn])
     env = bind_params(ex, st, fsrc.params(), fsrc.module, args, kwargs, e, contract.fq, vararg=va)
     env.pop(va, None)
+    if getattr(contract, "ghost_params", None):
+        given = getattr(ex, "pending_ghost", None) or {}
+        ex.pending_ghost = None
+        for gn in contract.ghost_params:
+            if gn not in given:
+                raise Unsupported("call of %s without its ghost argument %s (use with_ghost)" % (contract.short, gn), e)
+            env[gn] = given[gn]
     # coerce concrete constants (a constant tuple/list passed where the contract expects a list becomes a fresh list)
     for k in list(env):
         if env[k].k == "conc":
